@@ -37,6 +37,8 @@ import (
 	"testing/synctest"
 	"time"
 
+	piondtls "github.com/pion/dtls/v3"
+	dtlsnet "github.com/pion/dtls/v3/pkg/net"
 	coapdtls "github.com/plgd-dev/go-coap/v3/dtls"
 	"github.com/plgd-dev/go-coap/v3/message"
 	"github.com/plgd-dev/go-coap/v3/message/codes"
@@ -478,6 +480,8 @@ func (a connAddr) String() string  { return string(a) }
 //	tcpcli     the real constructor tcp.Client with options.WithLimitClient(Endpoint)ParallelRequest
 //	tcpsrv     a connection accepted by a real tcp.Server configured with those options
 //	dtlssrv    a connection accepted by a real dtls.Server configured with those options
+//	dtlscli    the real constructor dtls.Client (the appliers udp.Client uses as well) with an option list in which other
+//	           options (WithTransmission, WithMaxMessageSize, WithBlockwise, …) precede and follow the two limit options
 //
 // On server-made connections the requests are the ones the SERVER sends to its peer over the accepted connection.
 func (w *cworld) connect(limit, eplimit int64) error {
@@ -560,6 +564,44 @@ func (w *cworld) connect(limit, eplimit int64) error {
 		w.cc, w.lim, w.datagram = cc, cc.LimitParallelRequests, true
 		w.takeRaw, w.sendRaw = end.take, func(b []byte) { _, _ = end.c.Write(b) }
 		w.shutdown = func() { _ = cc.Close(); stop() }
+	case "dtlscli":
+		// the real constructor dtls.Client over a pion DTLS connection (PSK handshake through an in-memory pipe), configured
+		// by an option LIST in which other options precede and FOLLOW the two limit options: whatever else is configured,
+		// the limits of the connection are the ones the limit options gave
+		a, b := net.Pipe()
+		psk := func() *piondtls.Config {
+			return &piondtls.Config{
+				PSK:             func([]byte) ([]byte, error) { return []byte{0xC1, 0x06}, nil },
+				PSKIdentityHint: []byte("c16"),
+				CipherSuites:    []piondtls.CipherSuiteID{piondtls.TLS_PSK_WITH_AES_128_CCM_8},
+			}
+		}
+		sc, err := piondtls.Server(dtlsnet.PacketConnFromConn(b), connAddr("client"), psk())
+		if err != nil {
+			return err
+		}
+		xc, err := piondtls.Client(dtlsnet.PacketConnFromConn(a), connAddr("server"), psk())
+		if err != nil {
+			return err
+		}
+		herr := make(chan error, 1)
+		go func() { herr <- sc.HandshakeContext(context.Background()) }()
+		if err := xc.HandshakeContext(context.Background()); err != nil {
+			return err
+		}
+		if err := <-herr; err != nil {
+			return err
+		}
+		cc := coapdtls.Client(xc,
+			options.WithTransmission(64, 2*time.Second, 4), // NSTART lifted, see "udp"
+			options.WithMessagePool(pool.New(64, 2048)),
+			options.WithLimitClientParallelRequest(limit), options.WithLimitClientEndpointParallelRequest(eplimit),
+			options.WithTransmission(64, 2*time.Second, 4), options.WithMaxMessageSize(64*1024), options.WithMTU(1400),
+			options.WithBlockwise(false, 0, time.Second), options.WithErrors(func(error) {}), noRunner, options.WithCloseSocket())
+		end := newDgramEnd(sc)
+		w.cc, w.lim, w.datagram = cc, cc.LimitParallelRequests, true
+		w.takeRaw, w.sendRaw = end.take, func(b []byte) { _, _ = end.c.Write(b) }
+		w.shutdown = func() { _ = cc.Close(); _ = sc.Close(); <-end.done }
 	default:
 		return fmt.Errorf("unknown transport %q", w.tr)
 	}
